@@ -1,5 +1,5 @@
 (* C02 proofs, part 1: declared length arithmetic, content stage, counters of one request, parser index invariant,
-   witnesses of the two out-of-bounds paths *)
+   regression witnesses of the two repaired out-of-bounds paths *)
 From CppcmsV Require Import Base.Tac Base.CSem C02.Defs.
 Local Open Scope Z_scope.
 
@@ -146,12 +146,14 @@ Proof. induction s as [|c t IH]; intros p H; cbn [prun]; [exact H|]. apply IH. a
 Lemma resize_in_bounds s : pst (prun parser0 s) = PSpaceOr -> (2 <= length (phdr (prun parser0 s)))%nat.
 Proof. intros E. pose proof (prun_inv s parser0 I) as H. unfold pinv in H. rewrite E in H. exact H. Qed.
 
-(* ------------------------------------------------------------------ the two out-of-bounds paths of the current code *)
-(* "40:" + 40 x 'A' + ","  : the key/value scan runs off the end of buffer_ *)
+(* ------------------------------------------------------------------ regression witnesses of two repaired defects *)
+(* "40:" + 40 x A + ","  : before repair 236058f the key/value scan ran off the end of buffer_ (strlen);
+   now the block is rejected because its last string is not NUL terminated *)
 Definition scgi_witness : list N := [52;48;58]%N ++ repeat 65%N 40 ++ [44]%N.
-Lemma scgi_unterminated_unsafe : fst (scgi_run scgi_witness) = [IUnsafe].
+Lemma scgi_unterminated_rejected : scgi_run scgi_witness = ([IEnd], c0).
 Proof. vm_compute. reflexivity. Qed.
-(* GET_VALUES record with no content as first record of a connection *)
+(* GET_VALUES record with no content as first record of a connection: before repairs d9475fc + 48f6979 the front() of
+   a vector without storage was taken; now an empty GET_VALUES_RESULT is sent and the connection goes on *)
 Definition fcgi_witness : list N := [1;9;0;0;0;0;0;0]%N.
-Lemma fcgi_empty_get_values_unsafe : fst (fcgi_run fcgi_witness) = [IUnsafe].
+Lemma fcgi_empty_get_values_answered : fcgi_run fcgi_witness = ([IGetValues []; IEnd], c0).
 Proof. vm_compute. reflexivity. Qed.
